@@ -766,3 +766,7 @@ def replay(path: str) -> int:
         return 1
     print("property holds on this input")
     return 0
+
+
+from ..facts import attach as _attach, typechecks as _typechecks  # noqa: E402
+_attach(globals(), _typechecks.obligation("C10"))
